@@ -17,6 +17,8 @@ Streams
   forms     (c06_more.py) the public ARGUMENT FORMS and keyword DEFAULTS (axes None/int/float/bool/tuple/list/NumPy ints, reducer letter
             case, bin factors int/bool/NumPy int/list/tuple, out_shape with float entries, factors int/float/tuple/list, positional vs
             keyword passing, omitted keywords, pad modes constant/edge/wrap/reflect/symmetric) vs Model/ResampleArgs.lean
+  fixed / session (c06_g6.py) FIXED blocks, identical for every seed: size thresholds and exact multiples, axis order / sign, negative calibration,
+            narrow integer extremes, different shapes onto one output shape, repeated calls (see c06_g6.py)
 The hist stream also inserts rejected calls between its steps and snapshots every dataset the history leaves behind; float / hist
 inputs are drawn over value-structure classes (zero imaginary part in a complex dtype, zero real part, delta, constant, pure Nyquist,
 zeros, integer-valued) and complex data is judged for linearity over COMPLEX scalars (i*x included).
@@ -76,6 +78,17 @@ MANIFEST_ENTRY = {
             "defaults, pad modes) with theorems that the axes forms agree, that bin(f) is the block sum over all axes returned as a new "
             "dataset, and that over EVERY history of calls (raising or not) the object ends in the state reached by the calls that "
             "returned normally (a raising call is a no-op). "
+            "Growth round 6 (Props/C06Ext.lean, Props/C06Tie.lean): the unscaled 1-D operator is a linear map with an explicit kernel that "
+            "depends on the two lengths only; two fold steps along different axes commute; the N-D fold and fourier_resample itself (real "
+            "or complex path, rescale included) are invariant under every permutation of the (axis, length) pairs, so the N-D round trip "
+            "holds with the SAME axes tuple both times (complex, and real under the per-stage no-Nyquist condition); N-D calibration of bin "
+            "(every binned axis: sampling times f, pixel j at the mean coordinate of its block, origin / sampling of any sign; other axes "
+            "untouched) and order independence of the calibration folds of bin and fourier_resample; Python's round is within 1/2 "
+            "(factors= realises the nearest length, integral products exactly). Mechanical tie: harness/translator/resample2lean.py "
+            "EXECUTES the current Dataset.bin / pad / crop / fourier_resample on tagged arrays (pixel i = 2^i or i+1, one complex "
+            "exponential per bin, exact probe calibrations) before every build and rewrites Generated/ResampleTrace.lean; "
+            "generated_eq_spec_bin1/bin2/pad/crop/freq/binMeta/rsMeta prove every traced entry equal to binNd / padNd+padWidths / "
+            "sliceIndices / freqMap / binMeta / resampleMeta. "
             "Tied to the code on every run by exact equality (bin/pad/crop on integer data), a Float run of the same definitions "
             "against np.fft (tolerance 1e-9) and an exhaustive discrete index-map stream; histories with rejected calls (every "
             "rejection reason of the four methods; bit-identical state after a rejected call, untouched twin, laws on the later valid "
@@ -84,21 +97,24 @@ MANIFEST_ENTRY = {
     "note": "Trusted: Lean kernel + propext/Classical.choice/Quot.sound; np.fft is assumed to compute the defining DFT sums "
             "(exercised by the Float stream); IEEE rounding is measured, not proved; N-D fourier_resample is modelled as a fold "
             "of the 1-D operator over the axes - that np.fft.fftn/ifftn is this separable composition is measured (Float "
-            "stream), the N-D laws of the fold are proved; the N-D round trip resamples the axes back in reverse order (for "
-            "the separable NumPy transform the order is immaterial; commutation of the fold steps is not proved); the "
-            "N-D mean theorem is for distinct axes; duplicate axes are not generated. That a raising call leaves the object "
+            "stream), the N-D laws of the fold are proved, including (round 6) its independence of the order of the axes; the "
+            "N-D theorems are for distinct axes; duplicate axes are not generated. That a raising call leaves the object "
             "unchanged is a property of the code's statement order (all writes after the last raise): the model encodes it by returning "
             "either an error or a new state, the reject / forms / hist streams measure it on every run (bit-identical snapshots); the "
             "history theorem is about that model. The dtype (not the values) selects the real or the complex path: measured by the "
             "value-structure classes of the float stream and the dtype-kind comparison with the model. np.pad's own modes are modelled "
             "(padAxisSrc) and compared, not verified. String forms of numeric arguments, non-integral float axes and NumPy scalars as "
-            "a bare axes argument are modelled but not generated (behaviour there is incidental).",
+            "a bare axes argument are modelled but not generated (behaviour there is incidental). The mechanical tie covers the sizes it "
+            "traces (bin n <= 9 and eight 2-D shapes, pad n <= 6, crop len <= 5, freqMap n, m <= 8, calibration f, n, m <= 6); beyond them the "
+            "streams decide. A source the tracer cannot follow is reported as a note and the last good translation stays.",
     "technique": "Lean 4 proof (list/array algebra, index-map arithmetic, roots-of-unity sums over C) + model-vs-implementation correspondence",
 }
 RULE = ("a case is one operation (or one law instance) on one array; distinct non-trivial = distinct (stream, op, ndim, dtype kind, "
         "axes pattern, parity pattern / divisibility pattern, reducer or up/down direction) with at least 2 elements; reject / forms: "
-        "distinct (method, valid or rejection reason, in place?, ndim, previous step, dtype kind / set of keywords written)")
-TRUSTED = ["np.fft.fftn/ifftn compute the defining DFT sums; np.pad / reshape / sum semantics (modelled as gathers and block sums)",
+        "distinct (method, valid or rejection reason, in place?, ndim, previous step, dtype kind / set of keywords written); fixed blocks count through the exact / float rules, "
+        "a session = distinct (ndim, dtype kind, axes as given, output lengths)")
+TRUSTED = ["resample2lean.py (tracer: tags 2^i / i+1, exponentials, probe calibrations -> literal Lean tables; float calibration values are read as rationals with denominator <= 4096)",
+           "np.fft.fftn/ifftn compute the defining DFT sums; np.pad / reshape / sum semantics (modelled as gathers and block sums)",
            "np.pad modes edge / wrap / reflect / symmetric as index maps (padAxisSrc), compared on every run",
            "Python exception semantics: a statement that raises has no effect of its own; isinstance / int() / float() / str().lower() on the argument forms generated"]
 ASSUMPTIONS = [
@@ -110,6 +126,7 @@ ASSUMPTIONS = [
     "round trip: 'no Nyquist-frequency content' is enforced by projecting out bin n/2 along every resampled even axis; up-sampling means m >= n on every resampled axis",
     "a call that raises (bad reducer / factor / axes, both or neither of out_shape and factors, wrong lengths, negative pad widths ...) is read as 'not an operation': the statement's conservation clauses are judged over the history, so array, origin and sampling must be bit-identical after it (predicate `rejected-call-changed-state`); when a call this harness means to be rejected is accepted, the history ends there and only the model comparison reports it",
     "complex dtypes are drawn with structured values (imaginary part exactly 0 everywhere, real part 0, a single non-zero entry, constant, pure Nyquist, zeros): the path fourier_resample takes must depend on the dtype only; complex data is judged for linearity over complex scalars, real data over real scalars (the code takes the real part)",
+    "fixed blocks (c06_g6.py, identical for every VERIF_SEED): bin with axis lengths 1..300 around 127/128/129 and 255/256/257 and factors 1, 2, 3, n//2, n//2+1, n-1, n, n+1, 2n (a factor larger than the axis gives an EMPTY axis: n // f = 0, everything is trailing remainder - the code accepts it and the model agrees), narrow integer dtypes filled with their extreme values, axes in descending / negative order with a different factor per axis on H > W and H < W arrays, origins and samplings of every sign (negative sampling is accepted by Dataset and the statement's coordinate clauses are sign-agnostic); fourier_resample of datasets of different shapes onto one output shape one after the other in one process, every such case twice, lengths up to 300 up and down; sessions: the same call twice, the (axis, parameter) pairs permuted, in place twice vs the copying form, pad in place twice then crop",
     "forms stream: only argument forms the signatures' annotations / docstrings cover are generated as valid (integral floats as axes, NumPy integers inside tuples, list or tuple, any letter case of the reducer); n*f is exact (dyadic factors), ties x.5 included",
 ]
 EXPLANATION = ("Theorems in Props/C06.lean are about Model/Resample.lean (and Core/Dft.lean for the spectral part); every run executes "
